@@ -54,6 +54,12 @@ RemoveResult(a, pos) == seqs[a][pos + 1]
 ARemoveAt(a, pos) ==
     seqs' = [seqs EXCEPT ![a] = SubSeq(seqs[a], 1, pos) \o SubSeq(seqs[a], pos + 2, Len(seqs[a]))]
 
+\* move: remove_at(from) and insert the returned item again at position `to` of the shortened sequence
+AMove(a, from, to) ==
+    LET x == seqs[a][from + 1]
+        rest == SubSeq(seqs[a], 1, from) \o SubSeq(seqs[a], from + 2, Len(seqs[a]))
+    IN seqs' = [seqs EXCEPT ![a] = SubSeq(rest, 1, to) \o <<x>> \o SubSeq(rest, to + 1, Len(rest))]
+
 \* a modification attached to the root reaches exactly that treap's elements, once
 ARootModify(a, m) == seqs' = [seqs EXCEPT ![a] = ApplySeq(m, seqs[a])]
 AQuery == UNCHANGED seqs
